@@ -44,4 +44,19 @@ theorem iniExpand_terminates (w : Ini.World) (t : Ini.Table) (str : Bytes) :
 theorem iniParse_total (w : Ini.World) (sep : UInt8) (str : Bytes) : ∃ t, Ini.parseStr w sep str = .ok t :=
   Ini.parseStr_total w sep str
 
+/-- K-gen tie for the include splice: directive text, `PATH_MAX`-independent budget -/
+theorem ini_include_consts : Ini.directive = Generated.Conf.includeDirective ∧ Generated.Conf.maxIncludes = 256 := by
+  decide
+
+/-- iniParseFile_total: `qconfig_parse_file` terminates and delivers a table or an error (NULL) for
+    EVERY file system (`path → content`, so also files that include themselves or each other),
+    file path, separator and outside world: the `@INCLUDE` loop processes at most `_MAX_INCLUDES`
+    directives (then ELOOP), each round is a total function of the text (search for the first
+    directive at the beginning of a line, length / path checks, `qfile_load`, splice at that
+    position), and the spliced text is parsed by the total `qconfig_parse_str`. The accesses of the
+    include loop are list operations in the model (no raw buffer): the PATH_MAX overflow of the
+    pinned tree was found and repaired through the harness (ASan), not through this theorem. -/
+theorem iniParseFile_total (w : Ini.World) (fs : Bytes → Option Bytes) (sep : UInt8) (path : Bytes) :
+    ∃ r, Ini.parseFile w fs sep path = .ok r := Ini.parseFile_total w fs sep path
+
 end Qlibc.Props.C17Parsers
